@@ -29,7 +29,7 @@ def _unchanged_families(ctx, prefixes, below=None):
 
 @specfn('lists_unchanged')
 def lists_unchanged(ctx):
-    return _unchanged_families(ctx, ['len', 'el.'])
+    return _unchanged_families(ctx, ['len.', 'el.'])
 
 
 @specfn('dicts_unchanged')
@@ -78,12 +78,12 @@ def lists_unchanged_except_series_of(ctx, solver):
     k = z3.String(fresh_name('k'))
     ts = old.get_field(solver, 'TimeSeries')
     kty, vty = old.dict_types(ts)
-    has = z3.Select(_fam_now(old, old._dh(kty)), ts.t)
+    has = z3.Select(_fam_now(old, old._dh(kty, vty)), ts.t)
     dv = z3.Select(_fam_now(old, old._dv(kty, vty)), ts.t)
     is_series = z3.Exists([k], z3.And(z3.Select(has, k), z3.Select(dv, k) == r))
     conj = []
     for name in sorted(FAM_SORTS):
-        if not (name == 'len' or name.startswith('el.')):
+        if not (name.startswith('len.') or name.startswith('el.')):
             continue
         now, then = _fam_now(st, name), _fam_now(old, name)
         if now is then or z3.eq(now, then):
@@ -102,7 +102,7 @@ def fresh_lists_unchanged_since(ctx, snap, *except_lists):
     conj = []
     guard = [r >= old.alloc, r < h.alloc] + [r != x.t for x in except_lists]
     for name in sorted(FAM_SORTS):
-        if not (name == 'len' or name.startswith('el.')):
+        if not (name.startswith('len.') or name.startswith('el.')):
             continue
         now, then = _fam_now(st, name), _fam_now(h, name)
         if now is then or z3.eq(now, then):
@@ -120,7 +120,7 @@ def lists_unchanged_from(ctx, k):
     conj = []
     fkey = 'el.' + sortkey(FLOAT)
     for name in sorted(FAM_SORTS):
-        if not (name == 'len' or name.startswith('el.')):
+        if not (name.startswith('len.') or name.startswith('el.')):
             continue
         now, then = _fam_now(st, name), _fam_now(old, name)
         if now is then or z3.eq(now, then):
@@ -221,7 +221,7 @@ def old_objects_unchanged_except_dict(ctx, d):
         guard = z3.And(r > 0, r < old.alloc)
         if name.startswith('dh.') or name.startswith('dv.') or name == 'dk':
             guard = z3.And(guard, r != d.t)
-        if name == 'len' or name.startswith('el.'):
+        if name.startswith('len.') or name.startswith('el.'):
             guard = z3.And(guard, r != kl_old.t)
         conj.append(forall([r], z3.Implies(guard, z3.Select(now, r) == z3.Select(then, r)), patterns=[z3.Select(now, r)]))
     return mk_bool(z3.And(*conj) if conj else z3.BoolVal(True))
@@ -255,3 +255,52 @@ def term_outcome(ctx, s):
     """0: Term(s) is accepted; 1/2/3: SyntaxError / LogicError / NotImplementedError (function of the squeezed string)"""
     ctx.side.append(NoSpace(ops_strip(s.t)) == NoSpace(s.t))
     return SV(INT, TermOutcome(NoSpace(s.t)))
+
+
+@specfn('dict_same_as')
+def dict_same_as(ctx, snap, d):
+    """the dict object d has exactly the keys / values / key order it had in the snapshot"""
+    st, h = ctx.st, snap.meta
+    kty, vty = st.dict_types(d)
+    conj = []
+    for fam in (st._dh(kty, vty), st._dv(kty, vty), st._dk()):
+        conj.append(z3.Select(_fam_now(st, fam), d.t) == z3.Select(_fam_now(h, fam), d.t))
+    kl = h.dict_keylist(d)
+    lf = st.len_family(kty)
+    conj.append(z3.Select(_fam_now(st, lf), kl.t) == z3.Select(_fam_now(h, lf), kl.t))
+    ef = st.el_family(kty)
+    conj.append(z3.Select(_fam_now(st, ef), kl.t) == z3.Select(_fam_now(h, ef), kl.t))
+    return mk_bool(z3.And(*conj))
+
+
+@specfn('old_lists_only_extended')
+def old_lists_only_extended(ctx):
+    """every list allocated at entry still has its old elements at the old indices (it may only have grown)"""
+    st, old = ctx.st, ctx.entry
+    r = z3.Int(fresh_name('r'))
+    j = z3.Int(fresh_name('j'))
+    conj = []
+    live = z3.And(r > 0, r < old.alloc)
+    for name in sorted(FAM_SORTS):
+        if not name.startswith('el.'):
+            continue
+        lname = 'len.' + name[3:]
+        if lname not in FAM_SORTS:
+            continue
+        now, then = _fam_now(st, name), _fam_now(old, name)
+        ln_now, ln_then = _fam_now(st, lname), _fam_now(old, lname)
+        if not (ln_now is ln_then or z3.eq(ln_now, ln_then)):
+            conj.append(forall([r], z3.Implies(live, z3.Select(ln_now, r) >= z3.Select(ln_then, r)), patterns=[z3.Select(ln_now, r)]))
+        if now is then or z3.eq(now, then):
+            continue
+        conj.append(forall([r, j], z3.Implies(z3.And(live, 0 <= j, j < z3.Select(ln_then, r)),
+                                              z3.Select(z3.Select(now, r), j) == z3.Select(z3.Select(then, r), j)),
+                           patterns=[z3.Select(z3.Select(now, r), j)]))
+    return mk_bool(z3.And(*conj) if conj else z3.BoolVal(True))
+
+
+@specfn('list_same_as')
+def list_same_as(ctx, snap, lst):
+    """the list object has the length and elements it had in the snapshot"""
+    st, h = ctx.st, snap.meta
+    return mk_bool(z3.And(st.list_len(lst) == h.list_len(lst), st.list_elems(lst) == h.list_elems(lst)))
